@@ -734,7 +734,7 @@ class FlowFlowLabel(IOperationByteShortLong, NumericString, FlowIPv6):
 FLOW_LENGTH_EXTENDED_MASK: int = 0xF0  # Mask for extended length (upper 4 bits)
 FLOW_LENGTH_EXTENDED_VALUE: int = 0xF0  # Value indicating extended length (240)
 FLOW_LENGTH_LOWER_MASK: int = 0x0F  # Mask for lower 4 bits in extended length
-FLOW_LENGTH_EXTENDED_SHIFT: int = 16  # Shift for extended length calculation
+FLOW_LENGTH_EXTENDED_SHIFT: int = 8  # the low nibble of the first octet is bits 8-11 of the length (RFC 8955 4.1)
 FLOW_LENGTH_COMPACT_MAX: int = 0xF0  # Maximum length for compact encoding (240)
 FLOW_LENGTH_EXTENDED_MAX: int = 0x0FFF  # Maximum length for extended encoding (4095)
 
@@ -1038,7 +1038,7 @@ class Flow(NLRI):
         lc = len(components)
         if lc < FLOW_LENGTH_COMPACT_MAX:
             return bytes([lc]) + components
-        if lc < FLOW_LENGTH_EXTENDED_MAX:
+        if lc <= FLOW_LENGTH_EXTENDED_MAX:
             return pack('!H', lc | (FLOW_LENGTH_EXTENDED_VALUE << 8)) + components
         raise Notify(
             3,
